@@ -97,8 +97,9 @@ class Monitor(object):
                 self.flag("C04", "closure", "%s returned normally but the device never closed stream local=%d" % (rec.name, st.local), call=rec.name)
             elif not st.host_closed:
                 self.flag("C04", "closure", "%s returned normally but the host never sent CLSE on stream local=%d" % (rec.name, st.local), call=rec.name)
-            elif st.inflight or st.acked != len(st.written):
-                self.flag("C04", "ack", "%s returned normally with %d device WRTEs on stream local=%d but %d OKAYs" % (rec.name, len(st.written), st.local, st.acked), call=rec.name)
+            elif st.acked != st.delivered:
+                # (a WRTE that was still on the wire when the host closed the stream was not delivered and is not owed an OKAY)
+                self.flag("C04", "ack", "%s returned normally having read %d device WRTEs on stream local=%d (the device sent %d) but sent %d OKAYs" % (rec.name, st.delivered, st.local, len(st.written), st.acked), call=rec.name)
             else:
                 self.counts["streams_closed_clean"] += 1
 
